@@ -33,6 +33,7 @@ func (h *vfE2H) rawPub(tp *vfE2Topic, size int) int {
 	seq := h.nextSeq
 	h.nextSeq++
 	h.sizes[seq] = size
+	h.pubT[seq] = [2]int64{time.Now().UnixNano(), 0}
 	body := vfE2Body(seq, size)
 	var sz [4]byte
 	binary.BigEndian.PutUint32(sz[:], uint32(len(body)))
@@ -42,7 +43,7 @@ func (h *vfE2H) rawPub(tp *vfE2Topic, size int) int {
 		h.aborted = true
 	}
 	h.acked(tp, seq, size, false)
-	h.emit(fmt.Sprintf("pub %d %d", tp.t, size), fmt.Sprintf("ids %d", seq))
+	h.emit(fmt.Sprintf("pub %d %d @T%d %d", tp.t, size, seq, vfE2Crc(body)), fmt.Sprintf("ids %d", seq))
 	return seq
 }
 
@@ -429,7 +430,7 @@ func (h *vfE2H) doStall(t, c, n, size int) {
 	}
 	sort.Slice(mine, func(i, j int) bool { return mine[i].dts < mine[j].dts })
 	for _, e := range mine {
-		h.emit(fmt.Sprintf("deliver %d %d %d", k, e.seq, e.dts), fmt.Sprintf("msg %d", e.att))
+		h.emit(fmt.Sprintf("deliver %d %d %d", k, e.seq, e.dts), fmt.Sprintf("msg %d %d %d", e.att, e.ts, e.crc))
 		ch.lastAtt[e.seq] = int(e.att)
 		ch.holder[e.seq] = k
 	}
